@@ -269,6 +269,8 @@ func exec(t *thread, c cmd) kjob.Event {
 	case "outer-enosys-thread":
 		// the ENOSYS fault for the calling thread only (works whatever filters other threads carry)
 		return kjob.Event{Step: c.index, Ev: "outer-enosys", Tid: gettid(), Err: installEnosysHere(0)}
+	case "outer-enosys-thread-nonnp":
+		return kjob.Event{Step: c.index, Ev: "outer-enosys", Tid: gettid(), Err: installEnosys(0, false)}
 	case "outer-deny-nnp-thread":
 		return kjob.Event{Step: c.index, Ev: "outer-deny-nnp", Tid: gettid(), Err: installDenyNNPHere()}
 	case "status":
@@ -426,7 +428,10 @@ func installEnosysFilter() string {
 
 // installEnosysHere installs, on the calling thread (flags: 1 = and on all others), a filter that
 // answers ENOSYS to seccomp(2) and allows everything else.
-func installEnosysHere(flags uintptr) string {
+func installEnosysHere(flags uintptr) string { return installEnosys(flags, true) }
+
+// installEnosys: with nnp false the filter is installed without touching no_new_privs (needs CAP_SYS_ADMIN).
+func installEnosys(flags uintptr, nnp bool) string {
 	nr := uint32(317)
 	if runtime.GOARCH == "386" {
 		nr = 354
@@ -438,8 +443,10 @@ func installEnosysHere(flags uintptr) string {
 		{Code: 0x06, K: 0x7fff0000},       // ret ALLOW
 	}
 	fp := syscall.SockFprog{Len: uint16(len(prog)), Filter: &prog[0]}
-	if _, _, e := syscall.RawSyscall6(syscall.SYS_PRCTL, 38, 1, 0, 0, 0, 0); e != 0 {
-		return "prctl: " + e.Error()
+	if nnp {
+		if _, _, e := syscall.RawSyscall6(syscall.SYS_PRCTL, 38, 1, 0, 0, 0, 0); e != 0 {
+			return "prctl: " + e.Error()
+		}
 	}
 	r, _, e := syscall.RawSyscall(uintptr(nr), 1, flags, uintptr(unsafe.Pointer(&fp)))
 	if e != 0 || r != 0 {
@@ -523,7 +530,7 @@ func run(job *kjob.Job) {
 				done <- kjob.Event{Step: i, Ev: "control", Tid: before, TidAfter: after, Migrated: before != after}
 			}()
 			emit(<-done)
-		case "load", "nested-load", "supported", "nnp", "probe", "status", "outer-enosys-thread", "outer-deny-nnp-thread":
+		case "load", "nested-load", "supported", "nnp", "probe", "status", "outer-enosys-thread", "outer-enosys-thread-nonnp", "outer-deny-nnp-thread":
 			emit(kjob.Event{Step: i, Ev: "begin:" + st.Op, Idx: st.Thread})
 			if st.Thread < 0 {
 				done := make(chan kjob.Event, 1)
